@@ -13,6 +13,7 @@
     Proofs: LemmasRT_A .. LemmasRT_G (composition of C10, C11, C02, C04, C05 lemmas; nothing is enumerated over
     payload contents). *)
 From Coq Require Import NArith ZArith List Bool Lia.
+From M17 Require Import ImplModulator LemmasMdl_Main LemmasRT_Modulator.
 From M17 Require Import Bits ImplCRC ConstsCrc SpecM17 ImplMod ImplViterbi ImplFrameDecoder FrameDecoderInst
   LemmasFD_LSF LemmasFD_Inst LemmasRT_A LemmasRT_D LemmasRT_E LemmasRT_F LemmasRT_G.
 Import ListNotations.
@@ -197,6 +198,31 @@ Print Assumptions c01_rt_bert_m17mod.
 (** * Non-vacuity: the hypotheses are satisfiable; concrete frames decoded by evaluating the model
     LSF of source "AB1CD" to broadcast, CAN 3 (CRC-valid); magnitudes 1,2,..,7,1,2,.. and all 7;
     decoder states: freshly constructed (fd_init) or fd_init put into the mode named *)
+(** 7. the third transmitter, M17Modulator (packed-byte pipeline; C14 proves its frames equal the specification's encoding):
+       the 48 bytes it puts on its queue for a stream frame / for the LSF, unpacked MSB first after the two sync bytes,
+       decode bit-exact (cost 0 at full confidence); the LSF names (dst, src) with TYPE 0x0005 and a valid CRC. *)
+Theorem c01_rt_stream_modulator : forall (junk : nat -> N) (s : fd_state) (m : list Z) (lsf : list N) (n : nat) (fn : N)
+    (payload : list N) (eos r : bool),
+  fd_hid_ok s -> fd_mode s = MStream -> length m = 368%nat -> Forall (fun x => (1 <= x <= 7)%Z) m ->
+  all_bytes lsf -> length lsf = 30%nat -> (n < 6)%nat -> (fn < 32768)%N -> all_bytes payload -> length payload = 16%nat ->
+  let tx := ImplModulator.send_audio_frame junk (nth n (ImplModulator.build_lich junk lsf) []) (ImplModulator.make_payload junk (LemmasMdl_Main.fn_arg fn eos) payload) in
+  let o := fd_step s SStream (soft m (frame_bits tx)) r in
+  exists c : Z,
+    fd_observe o = (MStream, ROk, Some c, [mkcb FStream (fn_field fn eos ++ payload) c]) /\
+    (Forall (fun x => x = 7%Z) m -> c = 0%Z) /\ fd_hid_ok (fd_st_of o).
+Proof. exact rt_stream_modulator. Qed.
+Print Assumptions c01_rt_stream_modulator.
+
+Theorem c01_rt_lsf_modulator : forall (junk : nat -> N) (s : fd_state) (m : list Z) (dst src : list N) (r : bool),
+  fd_hid_ok s -> length m = 368%nat -> Forall (fun x => (1 <= x <= 7)%Z) m -> LemmasMdl_Main.callsigns_ok dst src ->
+  let tx := snd (ImplModulator.send_link_setup junk (ImplModulator.encode_callsign dst) (ImplModulator.encode_callsign src)) in
+  let L := spec_lsf dst src 0 in
+  let o := fd_step s SLsf (soft m (frame_bits tx)) r in
+  exists c : Z, (Forall (fun x => x = 7%Z) m -> c = 0%Z) /\
+    fd_observe o = (update_state MLsf (bytes_bits L), ROk, Some c, [mkcb FLsf L c]) /\ fd_lsf (fd_st_of o) = L /\ fd_hid_ok (fd_st_of o).
+Proof. exact rt_lsf_modulator. Qed.
+Print Assumptions c01_rt_lsf_modulator.
+
 Example c01_ex_lsf :
   let L := spec_lsf [] [65; 66; 49; 67; 68]%N 3 in
   length L = 30%nat /\ crc30 L = 0%N /\ fd_hid_ok fd_init /\
